@@ -33,6 +33,9 @@ pub struct VerifProbe {
     pub has_prev_path: bool,
     /// Current probe timeout of the application data space (the largest of the three spaces)
     pub pto: std::time::Duration,
+    /// Deadline of every timer, in `Timer` order (LossDetection, Idle, Close, KeyDiscard,
+    /// PathValidation, KeepAlive, Pacing, PushNewCid, MaxAckDelay)
+    pub timers: [Option<std::time::Instant>; 9],
 }
 
 impl Connection {
@@ -70,6 +73,7 @@ impl Connection {
             path_total_recvd: self.path.total_recvd,
             has_prev_path: self.prev_path.is_some(),
             pto: self.pto(SpaceId::Data),
+            timers: super::timer::Timer::VALUES.map(|t| self.timers.get(t)),
         }
     }
 }
